@@ -222,6 +222,12 @@ func (c *GoogleUserID) Prohibits(a macaroon.Access) error { return macaroon.ErrB
 func (c *GoogleUserID) IsAttestation() bool               { return true }
 
 func (c *GoogleUserID) EncodeMsgpack(enc *msgpack.Encoder) error {
+	// the wire format is the big-endian magnitude: a negative ID would silently
+	// come back as its absolute value
+	if (*big.Int)(c).Sign() < 0 {
+		return errors.New("negative GoogleUserID")
+	}
+
 	return enc.Encode((*big.Int)(c).Bytes())
 }
 
